@@ -81,7 +81,18 @@ func (a Iterators) dataType() influxql.DataType {
 		return influxql.Unknown
 	}
 
-	switch a[0].(type) {
+	// The placeholder for "the remote node has no data" is a float iterator only
+	// by convention. It must not decide the type: inputs arrive in no particular
+	// order, and every input of another type would be dropped by coerce.
+	first := a[0]
+	for _, itr := range a {
+		if _, ok := itr.(*nilFloatReaderIterator); !ok {
+			first = itr
+			break
+		}
+	}
+
+	switch first.(type) {
 	case FloatIterator:
 		return influxql.Float
 	case IntegerIterator:
